@@ -17,6 +17,7 @@ test, or the identity matrix.
 import numpy as np
 
 import json
+import os
 
 from mc import ScopeUnit, HistoryUnit, FAILED
 from mc import ref_dft
@@ -323,6 +324,9 @@ def run_babinet(case, seed, R):
 
 MD_DTYPES = ['bool', 'uint8', 'uint16', 'uint32', 'uint64', 'int8', 'int16', 'int32', 'int64', 'float16', 'float32', 'float64', 'complex64', 'complex128']
 MD_PATTERNS = ['binary', 'ones', 'zeros', 'overlap-sum', 'counts', 'scaled', 'twos', 'gray', 'signed', 'negated']
+# Wavefront.babinet computes `1 - fpm` in the mask's own dtype; for an unsigned mask holding values above 1 that wraps around (HEAD: reported as a
+# candidate defect, proposed_fixes/C05-babinet-unsigned-mask-complement.diff).  Judged only when this switch is on (set it to True once the fix is in).
+MD_BABINET_UNSIGNED_COUNTS = os.environ.get('C05_BABINET_UNSIGNED_COUNTS') == '1'
 MD_LAYOUTS = ['C', 'F', 'strided-view', 'reversed-view', 'transposed-view', 'read-only']
 MD_GEOM = [  # pupil shape, mask shape, band (fpm_dx = wvl*efl/(dx*band)), shift in focal samples, unit set
     {'n': [3, 4], 'mask': [6, 6], 'band': 6.0, 'shift': [0, 0], 'units': 0},        # full band: babinet(M) = T(M)
@@ -495,7 +499,7 @@ def run_mask_dtypes(case, seed, R):
             R.expect_close(getattr(o, 'data', None), want, tol, f'Wavefront.to_fpm_and_back:mask-dtype:{method}:{cell}', f'Wavefront method differs from the operator of the function: {where}')
         # Wavefront.babinet forms 1 - fpm itself, in the mask's dtype: unsigned masks with values above 1 cannot hold their complement
         # (unsigned arithmetic wraps) and are outside the domain of THIS route; babinet takes no shift
-        if sh == (0, 0) and not (kind == 'unsigned' and p.max() > 1) and Tc is not None:
+        if sh == (0, 0) and (MD_BABINET_UNSIGNED_COUNTS or not (kind == 'unsigned' and p.max() > 1)) and Tc is not None:
             wantb = x - (Tc @ x.ravel()).reshape(n)
             for lk in ('none', 'real'):
                 lyot = None if lk == 'none' else dense(n, seed, 24, complex_=False)
